@@ -550,7 +550,10 @@ class Cpp(Lang):
             op = ops[done]
             why = "timeout" if r.timed_out else _sig(r.returncode)
             ev = {"ev": op["op"], "id": op["id"], "ok": False, "cls": "crash", "err": "driver process died (%s) %s" % (why, r.stderr[-200:].strip())}
-            if op["op"] != "enc":
+            if op["op"] == "encinto":
+                ev["pre"] = len(op.get("pre", []))
+                ev["rd"] = int(op.get("rd", 0))
+            elif op["op"] != "enc":
                 ev["tail"] = len(op.get("tail", []))
             events.append(ev)
             if crash is None:
